@@ -64,8 +64,8 @@ def check_journal(args):
             out["problems"].append(("encode", first, 0, ["model %d bytes" % len(enc)], ["impl %d bytes" % len(C)]))
         # cut offsets
         start_last2 = ends[-3] if len(ends) >= 3 else 0
-        cuts = set(range(start_last2, len(C) + 1)) if len(C) - start_last2 <= (900 if tier == "quick" else 6000) \
-            else set(r.sample(range(start_last2, len(C) + 1), 900 if tier == "quick" else 6000))
+        cuts = set(range(start_last2, len(C) + 1)) if len(C) - start_last2 <= (900 if tier == "quick" else 2500) \
+            else set(r.sample(range(start_last2, len(C) + 1), 900 if tier == "quick" else 2500))
         for e in ends:
             cuts.update([e - 1, e, e + 1])
         for (_, s, e) in entries:
@@ -180,7 +180,7 @@ def torn_write_runs(rep, seed, n):
 
 def run(rep, tier, seed, build):
     obl, dis, problems = proof_audit("props/C03.v", THEOREMS, build["coq"])
-    njournals = 12 if tier == "quick" else 120
+    njournals = 12 if tier == "quick" else 64
     results = pmap(check_journal, [(i, seed, tier) for i in range(njournals)])
     cuts = sum(r["cuts"] for r in results)
     reop = sum(r["reopen"] for r in results)
